@@ -75,17 +75,29 @@ def proof_phase(ctx, plugin):
     if not os.path.exists(os.path.join(yvlib.COQ, prop_v)):
         ctx.broken.append("missing " + prop_v)
         return cov
-    ok, mlog = yvlib.coq_make([prop_v + "o"])
-    deps = yvlib.coq_deps(prop_v)
+    # props/<ID>_*.v: further statement-only files of the same property (e.g. <ID>_r2g.v: regenerated definitions
+    # proved equal to the hand models); built, re-checked and counted exactly like props/<ID>.v
+    import glob
+    import re
+    extras = sorted(os.path.relpath(f, yvlib.COQ) for f in glob.glob(os.path.join(yvlib.COQ, "props", "%s_*.v" % pid)))
+    prop_files = [prop_v] + extras
+    cov["prop_files"] = prop_files
+    ok, mlog = yvlib.coq_make([f + "o" for f in prop_files])
+    deps = []
+    for f in prop_files:
+        for d in yvlib.coq_deps(f):
+            if d not in deps:
+                deps.append(d)
     cov["coq_files"] = deps
     hits = yvlib.forbidden_scan(deps)
     if hits:
         ctx.broken.append("forbidden tokens in the development: " + "; ".join(hits[:10]))
-    # statements in the property file = obligations
-    with open(os.path.join(yvlib.COQ, prop_v)) as fh:
-        ptxt = yvlib.strip_coq_comments(fh.read())
-    import re
-    names = re.findall(r"^\s*(?:Theorem|Lemma|Corollary)\s+([A-Za-z_][\w']*)", ptxt, re.M)
+    # statements in the property files = obligations
+    names = []
+    for f in prop_files:
+        with open(os.path.join(yvlib.COQ, f)) as fh:
+            ptxt = yvlib.strip_coq_comments(fh.read())
+        names += re.findall(r"^\s*(?:Theorem|Lemma|Corollary)\s+([A-Za-z_][\w']*)", ptxt, re.M)
     cov["obligations"] = len(names)
     cov["theorems"] = names
     if not ok:
@@ -96,11 +108,13 @@ def proof_phase(ctx, plugin):
         ctx.broken.append("coq build failed at %s: %s" % (where, " | ".join(l.strip() for l in err if l.strip())[:600]))
         # which theorems of the property file still compile is unknown: none is discharged
         return cov
-    ok2, out, err = yvlib.coqc_file(prop_v)
-    if not ok2:
-        ctx.broken.append("coqc %s failed: %s" % (prop_v, err[-400:]))
-        return cov
-    assum = yvlib.parse_assumptions(out)
+    assum = []
+    for f in prop_files:
+        ok2, out, err = yvlib.coqc_file(f)
+        if not ok2:
+            ctx.broken.append("coqc %s failed: %s" % (f, err[-400:]))
+            return cov
+        assum += yvlib.parse_assumptions(out)
     cov["print_assumptions"] = assum
     bad = sorted({a for l in assum for a in l if a.split(".")[-1] not in yvlib.ALLOWED_AXIOMS and a not in yvlib.ALLOWED_AXIOMS})
     if bad:
@@ -139,7 +153,9 @@ def main():
         if not args.no_proof:
             cov = proof_phase(ctx, plugin)
         plugin.run(ctx)
-        if (ctx.broken or ctx.corr_broken) and not ctx.violations and hasattr(plugin, "search"):
+        open_classes = {o.get("class") for o in ctx.known_open()}
+        unlisted = [v for v in ctx.violations if v.get("known_class") not in open_classes]
+        if (ctx.broken or ctx.corr_broken) and not unlisted and hasattr(plugin, "search"):
             log("[check] obligations broken -> searching for a failing input")
             plugin.search(ctx)
     except yvlib.BuildError as e:
